@@ -12,8 +12,9 @@ package mon
 //     declaration and sites whose bound cannot be resolved from the package are counted as unchecked;
 //   * the generated decoder REJECTS a collection one element over its declared allocbound (probe, per declared site);
 //   * bytes allocated by one decode (runtime.MemStats.TotalAlloc delta) <= 1024*(len(input)+MaxSize(type)) + 1 MiB, for
-//     types whose generated MaxSize exists and does not panic; the constant is ~38x the largest ratio observed on the unchanged tree (27 B per byte of input+MaxSize)
-//     of any element type -- the monitor exists to catch a length prefix honoured before it is checked.
+//     types whose generated MaxSize exists, terminates and does not panic; the constant is ~38x the largest ratio observed on
+//     the unchanged tree (27 bytes per byte of input+MaxSize) -- the monitor exists to catch a length prefix honoured before
+//     it is checked, not to police small constants.
 // Trailing bytes after a complete object are accepted by design (go-codec compatibility) and are not a finding.
 
 import (
@@ -70,7 +71,7 @@ func (w *verifMsgpWalk) lenCheck(n int, bounds []int64, what, src string) {
 	default:
 		w.checked++
 		if int64(n) > b {
-			w.viol = append(w.viol, [2]string{w.pkg + "." + src, fmt.Sprintf("%s has %d elements, declared allocbound %d (%s)", what, n, b, src)})
+			w.viol = append(w.viol, [2]string{src, fmt.Sprintf("%s has %d elements, declared allocbound %d (%s)", what, n, b, src)})
 		}
 	}
 }
@@ -101,7 +102,7 @@ func (w *verifMsgpWalk) walk(v reflect.Value, st reflect.Type, f *reflect.Struct
 				tot += v.Index(i).Len()
 			}
 			if int64(tot) > maxTotal {
-				w.secondary = append(w.secondary, [3]string{"declared-maxtotalbytes-not-enforced-by-decoder", w.pkg + "." + src, fmt.Sprintf("%s holds %d bytes in total, declared maxtotalbytes %d", path, tot, maxTotal)})
+				w.secondary = append(w.secondary, [3]string{"declared-maxtotalbytes-not-enforced-by-decoder", src, fmt.Sprintf("%s holds %d bytes in total, declared maxtotalbytes %d", path, tot, maxTotal)})
 			}
 		}
 		for i := 0; i < v.Len(); i++ {
@@ -120,7 +121,7 @@ func (w *verifMsgpWalk) walk(v reflect.Value, st reflect.Type, f *reflect.Struct
 		it := v.MapRange()
 		for it.Next() {
 			if len(bounds) > 1 && bounds[1] >= 0 && (it.Key().Kind() == reflect.String) && int64(it.Key().Len()) > bounds[1] {
-				w.secondary = append(w.secondary, [3]string{"declared-map-key-bound-not-enforced-by-decoder", w.pkg + "." + src, fmt.Sprintf("%s has a key of %d bytes, declared key bound %d", path, it.Key().Len(), bounds[1])})
+				w.secondary = append(w.secondary, [3]string{"declared-map-key-bound-not-enforced-by-decoder", src, fmt.Sprintf("%s has a key of %d bytes, declared key bound %d", path, it.Key().Len(), bounds[1])})
 			}
 			w.walk(it.Key(), nil, nil, nil, path+"{key}", depth+1)
 			w.walk(it.Value(), nil, nil, nil, path+"{}", depth+1)
@@ -325,9 +326,9 @@ func verifMsgpCases(tier, lane string) int {
 	// legitimately cost ~150 MB of zeroed memory per decode, which is what bounds these counts.
 	n := 640
 	if tier == "thorough" {
-		n = 6400
+		n = 3200
 		if lane != "plain" {
-			n = 640
+			n = 320
 		}
 	} else if lane != "plain" {
 		n = 320
@@ -516,6 +517,10 @@ func RunC41(t *testing.T, cd *Codec) {
 	pkgs := msgpmon.Packages()
 	if len(pkgs) == 0 {
 		c.Harness("no package registered")
+	}
+	if os.Getenv("VERIF_C41_PROBE_ONLY") != "" { // debugging aid: run the bound-enforcement probe alone
+		verifMsgpProbe(c, cd)
+		return
 	}
 	self := os.Getenv("VERIF_SELF")
 	if self == "" {
@@ -860,10 +865,28 @@ func verifMsgpProbe(c *kit.Ctx, cd *Codec) {
 						continue
 					}
 					for _, n := range []int64{bound + 1, bound} {
-						o := ty.New()
-						v, _ := target(o)
 						r := c.Rand(42, uint64(pi), uint64(bi), uint64(level))
 						g := &verifMsgpGen{r: r, ix: ix, budget: 30, feat: map[string]int{}, small: true}
+						// start from an instance the decoder accepts (required fields present, ...), so that only the probed
+						// collection can be the reason for a rejection
+						o := ty.New()
+						baseErr := ""
+						for try := 0; try < 30; try++ {
+							cand := ty.New()
+							g.budget = 25
+							g.fill(reflect.ValueOf(cand).Elem(), nil, nil, nil, 0)
+							var derr error
+							c.Guard("encode", map[string]any{"site": site}, func() { derr = cd.Decode(cd.Encode(cand), ty.New()) })
+							if derr == nil {
+								o, baseErr = cand, ""
+								break
+							}
+							baseErr = derr.Error()
+						}
+						if baseErr != "" && n > bound {
+							unprobed = append(unprobed, fmt.Sprintf("%s: no generated base instance was accepted by the decoder (last: %s)", site, verifMsgpShort1(baseErr)))
+						}
+						v, _ := target(o)
 						okSet := false
 						if level == 0 {
 							okSet = verifMsgpSetLen(v, int(n), g)
@@ -905,9 +928,7 @@ func verifMsgpProbe(c *kit.Ctx, cd *Codec) {
 							c.Count("probe_at_bound_accepted", 1)
 						default:
 							c.Count("probe_at_bound_rejected", 1)
-							if strings.Contains(err.Error(), "msgp: length overflow") || strings.Contains(err.Error(), "msgp: wanted array of size") {
-								c.Violation("decoder-rejects-collection-at-declared-bound:"+site, map[string]any{"site": site, "declared": b.Src, "bound": bound, "elements": n, "error": err.Error()})
-							}
+							// not a verdict: the elements built for the probe may themselves be what the decoder rejects
 						}
 					}
 				}
